@@ -16,7 +16,7 @@ build() { # build <cmd> <race:0|1>
   [ "$race" = 1 ] && { flags+=(-race); out=.bin/$1$SUF.race; }
   (
     flock 9
-    if [ -x tools/seamgen.sh ]; then ./tools/seamgen.sh >/dev/null || exit 2; fi
+    for sg in tools/seam.d/*.sh; do [ -x "$sg" ] && { "$sg" >/dev/null || { echo "INTERNAL: seam generator $sg failed" >&2; exit 2; }; }; done
     ov=$(python3 tools/overlay.py) || exit 2
     go build "${flags[@]}" -tags verif -overlay "$ov" -o "$out" "./cmd/$cmd" 2>&1 | grep -v '^WARNING' >&2
     exit ${PIPESTATUS[0]}
